@@ -125,7 +125,13 @@ def observe(arg):
                     v0 = at.xray.f0(0.0)
                 except KeyError:
                     continue            # no coefficients for this ion: outside the clause
+                # the same Q grid (one float array) used for two calls: the caller's array is not rescaled in place
+                Qarr = np.array([float(t["Q"]), 1.0, 24 * np.pi * 1.0001])
+                keepQ = Qarr.copy()
+                at.xray.f0(Qarr)
+                second = at.xray.f0(Qarr)
                 out.append({"ev": "f0", "id": t["id"], "z": z, "q": q, "at0": dec.enc(float(v0)),
+                            "again": dec.enc(float(second[0])), "qkept": bool((Qarr == keepQ).all()),
                             "beyond": dec.enc(float(at.xray.f0(24 * np.pi * 1.0001))),
                             "edge": dec.enc(float(at.xray.f0(24 * np.pi))),
                             "inside": dec.enc(float(at.xray.f0(t["Q"])))})
